@@ -5,6 +5,10 @@ EXTENDS Routing, Json, IOUtils
 Mat(k, p, ts, n) == [index |-> p, ts |-> ts, n |-> n, nDur |-> n * n, nDist |-> n * n,
                      dur |-> [i \in 1..n |-> [j \in 1..n |-> IF i = j THEN 0 ELSE 1000 * k + 10 * i + j]],
                      dist |-> [i \in 1..n |-> [j \in 1..n |-> IF i = j THEN 0 ELSE 1000 * k + 500 + 10 * i + j]]]
+\* the same with one pair flagged unreachable (negative duration and distance) in EVERY matrix of the set: it stays negative at any time
+Unr(k, p, ts, n) == LET m == Mat(k, p, ts, n) IN
+   [m EXCEPT !.dur = [i \in 1..n |-> [j \in 1..n |-> IF i = 1 /\ j = 2 THEN 0 - 1 ELSE m.dur[i][j]]],
+             !.dist = [i \in 1..n |-> [j \in 1..n |-> IF i = 1 /\ j = 2 THEN 0 - 1 ELSE m.dist[i][j]]]]
 Sizes == {1, 2, 3}
 \* consistent sets: time agnostic with 1-2 profiles (in both orders), time series with 2-3 timestamps for 1-2 profiles
 Good(n) == { << Mat(1, 0, 0 - 1, n) >>,
@@ -13,6 +17,7 @@ Good(n) == { << Mat(1, 0, 0 - 1, n) >>,
              << Mat(1, 0, 10, n), Mat(2, 0, 20, n) >>,
              << Mat(1, 0, 40, n), Mat(2, 0, 10, n), Mat(3, 0, 20, n) >>,
              << Mat(1, 0, 10, n), Mat(2, 1, 10, n), Mat(3, 0, 30, n), Mat(4, 1, 20, n) >> }
+           \cup (IF n >= 2 THEN { << Unr(1, 0, 0 - 1, n) >>, << Unr(1, 0, 10, n), Unr(2, 0, 20, n) >>, << Unr(1, 0, 40, n), Unr(2, 0, 10, n), Unr(3, 0, 20, n) >> } ELSE {})
 \* inconsistent sets
 Bad(n) == { <<>>,
             << Mat(1, 0, 0 - 1, n), Mat(2, 0, 0 - 1, n) >>,                       \* duplicate profile without timestamps
